@@ -4,8 +4,20 @@ use crate::common::*;
 use crate::pairhist::Bias;
 
 pub fn run(args: &Args) {
-    crate::c01::run_prop(args, "C07", Bias { tiny_swaps: true, spreads: false, toggles: false },
+    crate::c01::run_prop_with(args, "C07", Bias { tiny_swaps: true, spreads: false, toggles: false },
         "histories of 5-35 operations on a real constant-product pair biased to small swaps and frequent fee collections so that pending \
          protocol fees are zero, at or below, and above the collection threshold; non-trivial = at least 3 different operation kinds succeeded; \
-         distinct = by hash of the whole case");
+         distinct = by hash of the whole case; plus histories on the real three-asset pool (C04 pool stream) and on the real vault with a scripted borrower (loans, collections, deposits, withdrawals)",
+        &|out, rng, n| {
+            // three-asset pool: ledger identity / conservation monitors of the trio stream
+            crate::c04_pool::pool_histories(out, rng, (n / 6).max(12));
+            // vault: loans (fees charged), collections, and everything else
+            for i in 0..(n / 3).max(30) {
+                let cw20 = i % 2 == 1;
+                let fees = crate::vault_hist::gen_fees(rng);
+                let funds = crate::vault_hist::gen_funds(rng);
+                let len = 8 + rng.below(9) as usize;
+                crate::vault_hist::run_history(out, "C07", "vault", rng, crate::vault_hist::Mix::Loans, cw20, fees, funds, crate::vault_hist::Source::Gen(len));
+            }
+        });
 }
